@@ -71,6 +71,43 @@ func C13(c *core.Ctx) {
 	c.Rule("C13-R1", "identity validators and normalisers are wired into the regime's registered dispatchers", 20)
 	c.Rule("C13-R2", "tax identities are normalised by the regime dispatcher through the common routine", 17)
 	isCommon := func(f *types.Func) bool { return core.IsFunc(f, core.ModPath+"/tax", "", "NormalizeIdentity") }
+	// R3: the common normalisation comes first. A regime's own rewriting of the code (suffix
+	// removal, check-digit prefix, upper-casing) is written for the normalised form — no
+	// separators, upper case, no country prefix; applied to the raw text it misses the
+	// spellings the common routine would have unified, and a second normalisation gives
+	// another result than the first.
+	c.Rule("C13-R3", "the regime's own rewriting of a tax code comes after the common normalisation", 3)
+	for _, fd := range p.AllFuncs() {
+		rel := core.RelPkg(fd.Obj.Pkg().Path())
+		if !strings.HasPrefix(rel, "regimes/") || p.IsTestFile(fd.Decl.Pos()) {
+			continue
+		}
+		info := fd.Pkg.TypesInfo
+		for _, call := range core.CallsTo(info, fd.Decl.Body, isCommon) {
+			if len(call.Args) == 0 {
+				continue
+			}
+			idv := core.VarOf(info, call.Args[0])
+			if idv == nil {
+				continue
+			}
+			early := ""
+			ast.Inspect(fd.Decl.Body, func(m ast.Node) bool {
+				as, ok := m.(*ast.AssignStmt)
+				if !ok || as.Pos() > call.Pos() {
+					return true
+				}
+				for _, l := range as.Lhs {
+					if core.IsFieldOfVar(info, l, idv, "Code") {
+						early = p.Rel(as.Pos())
+					}
+				}
+				return true
+			})
+			c.Ob("C13-R3", fd.Name()+"#common-first", call.Pos(), early == "",
+				"the code is rewritten at "+early+" before tax.NormalizeIdentity has run: the regime's rewriting sees the raw spelling (lower case, separators, prefixes), so equivalent spellings no longer normalise to the same code and normalising twice differs from normalising once")
+		}
+	}
 	nReg := 0
 	var regimesWith []string
 	for _, pk := range p.Pkgs {
